@@ -3,14 +3,24 @@ use aelys_runtime::VM;
 
 pub struct VMStage {
     vm: Option<VM>,
+    // true only for a VM handed in by the caller: that VM is a session the caller owns and
+    // every run goes through it. Otherwise each run gets a VM of its own, so that globals
+    // of one source cannot be seen by the next and errors name the source that ran.
+    shared: bool,
 } // Compiled -> Value
 
 impl VMStage {
     pub fn new() -> Self {
-        Self { vm: None }
+        Self {
+            vm: None,
+            shared: false,
+        }
     }
     pub fn with_vm(vm: VM) -> Self {
-        Self { vm: Some(vm) }
+        Self {
+            vm: Some(vm),
+            shared: true,
+        }
     }
 }
 
@@ -39,7 +49,8 @@ impl Stage for VMStage {
             }
         };
 
-        let mut vm = match self.vm.take() {
+        let reused = if self.shared { self.vm.take() } else { None };
+        let mut vm = match reused {
             Some(vm) => vm,
             None => VM::new(source).map_err(|e| PipelineError::StageError {
                 stage: "vm".to_string(),
